@@ -445,7 +445,8 @@ def _dead_set_filter(ctx, k, flt):
         if t[0] == "compr" and t[1] in sx.loops:
             L = sx.loops[t[1]]
             el = ("elem", L.id)
-            if L.source not in slist_terms or not L.whole or L.elt != ("attr", el, "idx"):
+            by_position = L.enumerated and L.elt == ("pos", L.id)        # {i for i, s in enumerate(states) if P(s)}: positions are the indices
+            if L.source not in slist_terms or not L.whole or not (L.elt == ("attr", el, "idx") or by_position):
                 return None
             P = simp(("and", tuple(L.filters))) if L.filters else TRUE
 
@@ -988,6 +989,7 @@ def r6_monotone(ctx, chk, rule="C03.6"):
 
 
 def run(ctx, chk):
+    shared.rule_no_keyed_collapse(ctx, chk, "C03.0:keyed", ("prune_paths", "remove_path"))      # parallel transitions are separate transitions
     r1(ctx, chk)
     r23(ctx, chk)
     r4_player_two(ctx, chk)
